@@ -569,6 +569,27 @@ def run_parallel(ctx, jobs, max_workers=4):
         raise err
 
 
+SSRC_TABLES = [None, None,
+               {1: 0x00010001, 2: 0x00020001, 3: 0x00030001, 9: 0x00090001},      # equal in the low 16 bits
+               {1: 0x00010000, 2: 0x00020000, 3: 0x00030000, 9: 0x00090000},      # low 16 bits all zero
+               {1: 0x7FFF0001, 2: 0x7FFF0002, 3: 0x7FFF0003, 9: 0x7FFF0009},      # equal in the high 16 bits
+               {1: 0x12345678, 2: 0x12355678, 3: 0x02345678, 9: 0x12345679}]
+
+
+def remap_ids(obj, table, keys=("s", "ssrc")):
+    """Scripts name streams by small numbers; the wire carries the SSRCs of `table` instead (values that differ only in
+    their high or only in their low half, so that a truncated or mis-packed key shows).  TLC integers are 32-bit signed:
+    every value stays below 2^31."""
+    if table is None:
+        return obj
+    if isinstance(obj, dict):
+        return {k: (table.get(v, v) if k in keys and isinstance(v, int) and not isinstance(v, bool) else remap_ids(v, table, keys))
+                for k, v in obj.items()}
+    if isinstance(obj, list):
+        return [remap_ids(x, table, keys) for x in obj]
+    return obj
+
+
 def replay_scripts(path):
     rep = json.load(open(path))
     if rep.get("script"):
